@@ -480,6 +480,12 @@ def _indent(ctx):
                         good = False
                     if isinstance(b, ast.Name) and b.id in f.params:
                         level = b.id
+                        redef = [d for d in flow_of(f).reaching(level, at) if d.kind != 'param']
+                        if redef:
+                            o.refute(f, node, ind[0], f"the indentation reads `{level}` after it was re-assigned (line "
+                                                      f"{getattr(redef[0].stmt, 'lineno', '?')}: `{src(redef[0].stmt)[:60]}`), not the depth the "
+                                                      f"function was called with")
+                            good = False
                     else:
                         pn = [p for p in f.params if mentions(b, p)]
                         if len(pn) == 1 and isinstance(b, ast.BinOp):
@@ -524,7 +530,13 @@ def _indent(ctx):
             if a is None:
                 o.undecided(f, c, c, "level argument of the recursive call not found")
             elif match(f"{level} + 1", a) or match(f"1 + {level}", a):
-                o.site(f, c, f"recursion passes {src(a)}")
+                redef = [d for d in flow_of(f).reaching(level, cfg.node_containing(c)) if d.kind != 'param']
+                if redef:
+                    o.refute(f, c, b[level], f"the recursive call passes `{src(a)}` computed from a re-assigned `{level}` (line "
+                                             f"{getattr(redef[0].stmt, 'lineno', '?')}: `{src(redef[0].stmt)[:60]}`), not from the depth this call "
+                                             f"received: indentation stops following the tree depth")
+                else:
+                    o.site(f, c, f"recursion passes {src(a)}")
             elif match(level, a):
                 o.refute(f, c, b[level], f"the recursive call passes `{level}` unchanged: children are printed at their parent's indentation")
             elif isinstance(a, ast.BinOp) and mentions(a, level) or isinstance(a, ast.Constant):
@@ -600,6 +612,22 @@ def _callers(ctx):
             if q not in seen:
                 o.refute(prog.func(q), prog.func(q).node, 'no _Repr.repr', f"{q} does not render through _Repr.repr")
     ctx.guarded(o, run)
+
+
+def _acc_returns(o, f, acc, what):
+    """returns that post-process the accumulated text or return something else: False if any was reported"""
+    ok = True
+    for r, v in acc.transformed:
+        o.refute(f, r, v, f"{what} is post-processed by `{src(v)}` after the cells were padded: padding is cut away and lines get "
+                          f"different widths")
+        ok = False
+    for r, v in acc.foreign:
+        if mentions(v, acc.name):
+            o.undecided(f, r, v, f"`{src(v)[:80]}` is returned instead of the plain accumulated text `{acc.name}`")
+        else:
+            o.refute(f, r, v, f"a path returns `{src(v)[:80]}` instead of the accumulated text `{acc.name}`: that line lacks the padded cells")
+        ok = False
+    return ok
 
 
 # ============================================================================================================== width
@@ -878,6 +906,7 @@ def _width(ctx):
         if acc.problem:
             o.undecided(f, f.node, 'text_repr', acc.problem)
             return
+        _acc_returns(o, f, acc, "the rendered table")
 
         def classify(node, g):
             e = acc.emitted(node)
@@ -957,6 +986,7 @@ def _row_render(ctx):
         if acc.problem:
             o.undecided(f, f.node, 'repr', acc.problem)
             return
+        _acc_returns(o, f, acc, "the rendered row")
 
         def kinds(node):
             e = acc.emitted(node)
@@ -1629,7 +1659,12 @@ def _usage(ctx):
                 node = w
             m = match(f"{fn}($x)", v)
             mo = match(f"{other}($x)", v)
-            if m and dates_of_all_rows(m['x'], rows) == 'ok':
+            single = [x for x in ast.walk(v) if isinstance(x, ast.Subscript) and match(rows, x.value)
+                      and not (isinstance(x.slice, ast.Slice) and x.slice.lower is None and x.slice.upper is None)]
+            if single:
+                o.refute(f, node, v, f"the {what} is taken from individual rows (`{src(v)[:80]}`), not {fn}() over the dates of ALL stored "
+                                     f"rows: reservations recorded out of date order fall outside the table")
+            elif m and dates_of_all_rows(m['x'], rows) == 'ok':
                 o.site(f, node, f"{what} = {src(v)[:80]}")
             elif (m or mo) and dates_of_all_rows((m or mo)['x'], rows):
                 if mo:
